@@ -1,5 +1,6 @@
 (* GraphIOSound.v -- what the readers accept and which exceptions they can raise. *)
 From Coq Require Import ZArith List Bool Lia ZifyBool Ascii.
+From Coq Require String.
 From Cnfgen Require Import GText GraphIO GTextFacts GraphIOFacts GraphIOMatrix GraphIODimacs GraphIOKth.
 Import ListNotations.
 Open Scope Z_scope.
@@ -575,4 +576,76 @@ Proof.
     destruct f, hd; table H; try discriminate; inversion H; subst text; clear H; table_goal.
     1,2: destruct (kthb_roundtrip G Hwf HK Hkn) as [nm E]; rewrite E; cbn [gio_bind]; exists nm; now rewrite same_but_name_eq.
     1,2: rewrite (matrix_roundtrip G Hwf HK); cbn [gio_bind]; exists []; now rewrite same_but_name_eq.
+Qed.
+
+(* ---------- the deviations of the unchanged code, as witnesses ---------- *)
+Import String.
+Open Scope list_scope.
+Open Scope Z_scope.
+Definition txt (s : string) : gt_str := list_ascii_of_string s.
+
+(* D6: a kthlist text without a size line *)
+Definition comment_only_text : gt_str := txt "c only a comment" ++ [gt_nl].
+Lemma kth_empty_stopiteration :
+  gio_read_graph true TSimple FKthlist [] = GRaise EStopIteration /\
+  gio_read_graph true TBipartite FKthlist comment_only_text = GRaise EStopIteration.
+Proof. split; vm_compute; reflexivity. Qed.
+
+(* D7: a blank line in a DIMACS graph file *)
+Definition dimacs_blank_text : gt_str := txt "p edge 2 1" ++ [gt_nl; gt_nl] ++ txt "e 1 2" ++ [gt_nl].
+Lemma dimacs_blank_indexerror : gio_read_graph true TSimple FDimacs dimacs_blank_text = GRaise EIndexError.
+Proof. vm_compute. reflexivity. Qed.
+(* the same file without the blank line is fine *)
+Definition dimacs_noblank_text : gt_str := txt "p edge 2 1" ++ [gt_nl] ++ txt "e 1 2" ++ [gt_nl].
+Lemma dimacs_noblank_ok :
+  gio_read_graph true TSimple FDimacs dimacs_noblank_text = GOk (mkIOG KSimple [] 2 0 [(1, 2)]).
+Proof. vm_compute. reflexivity. Qed.
+
+(* D8: a left vertex listed twice *)
+Definition kthb_dup_text : gt_str := txt "3" ++ [gt_nl] ++ txt "1 : 2 0" ++ [gt_nl] ++ txt "1 : 3 0" ++ [gt_nl].
+Lemma kthb_dup_accepts : gio_read_kthb kthb_dup_text = GOk (mkIOG KBipartite [] 1 2 [(1, 2)]).
+Proof. vm_compute. reflexivity. Qed.
+
+(* full soundness statement for bipartite kthlist: every listed neighbour is an edge of the result *)
+Definition kthb_sound_statement : Prop :=
+  forall text G, gio_read_kthb text = GOk G ->
+  forall skips sl rest n, gt_lines text = skips ++ sl :: rest -> Forall kth_skip skips ->
+    gio_kth_line (-1) sl = GOk (KISize n) ->
+    forall r v, In r (kth_rows n rest) -> In v (snd r) -> In (fst r, v - io_n G) (io_edges G).
+
+Lemma kthb_sound_refuted : ~ kthb_sound_statement.
+Proof.
+  intros S.
+  specialize (S kthb_dup_text _ kthb_dup_accepts [] (txt "3" ++ [gt_nl]) [txt "1 : 2 0" ++ [gt_nl]; txt "1 : 3 0" ++ [gt_nl]] 3).
+  specialize (S ltac:(vm_compute; reflexivity) ltac:(constructor) ltac:(vm_compute; reflexivity) (1, [2]) 2).
+  specialize (S ltac:(vm_compute; left; reflexivity) ltac:(left; reflexivity)).
+  cbn in S. destruct S as [S|[]]. inversion S.
+Qed.
+
+(* unsupported format for the type: refused with ValueError, whatever the text *)
+Lemma format_table_refuses hd t f text : existsb (gio_fmt_eqb f) (gio_supported hd t) = false ->
+  gio_read_graph hd t f text = GRaise EValueError.
+Proof. intros H. unfold gio_read_graph. rewrite H. reflexivity. Qed.
+
+(* a concrete instance: 12 vertices, isolated vertices, an edge between a one-digit and a two-digit vertex *)
+Definition g12d : iograph := mkIOG KDirected (txt "G") 12 0 [(2, 10); (9, 11)].
+Definition g12d_kth_text : gt_str :=
+         txt "c G" ++ [gt_nl] ++ txt "12" ++ [gt_nl] ++
+         txt "1 : 0" ++ [gt_nl] ++ txt "2 : 0" ++ [gt_nl] ++ txt "3 : 0" ++ [gt_nl] ++ txt "4 : 0" ++ [gt_nl] ++
+         txt "5 : 0" ++ [gt_nl] ++ txt "6 : 0" ++ [gt_nl] ++ txt "7 : 0" ++ [gt_nl] ++ txt "8 : 0" ++ [gt_nl] ++
+         txt "9 : 0" ++ [gt_nl] ++ txt "10 : 2 0" ++ [gt_nl] ++ txt "11 : 9 0" ++ [gt_nl] ++ txt "12 : 0" ++ [gt_nl] ++ [gt_nl].
+Lemma g12d_example :
+  gio_wf g12d /\ type_kind_ok TDag g12d /\ no_nl (io_name g12d) /\
+  gio_write_graph true TDag FKthlist g12d = GOk g12d_kth_text /\
+  (exists text, gio_write_graph true TDag FDimacs g12d = GOk text /\
+                gio_read_graph true TDag FDimacs text = GOk (same_but_name g12d (io_name g12d))).
+Proof.
+  split.
+  { unfold gio_wf, g12d. cbn. split; [lia|]. split; [lia|]. split; [reflexivity|]. split.
+    - constructor; [constructor; [constructor|intros y []]|]. intros y [<-|[]]. left. cbn. lia.
+    - repeat constructor; cbn; lia. }
+  split; [split; [reflexivity|intros _; reflexivity]|].
+  split; [repeat constructor|].
+  split; [vm_compute; reflexivity|].
+  eexists. split; vm_compute; reflexivity.
 Qed.
